@@ -51,10 +51,41 @@ class MapProc(Process):
                 f.write('%d %d\n' % (os.getpid(), int(np.real(row[0]))))
         return fmap(row)
 
+    def _unit_computation(self, *args, **kwargs):
+        # lazy mode hands the batch over as a dask array; child classes materialise it (parallel_compute wants numpy)
+        if not isinstance(self.data, np.ndarray):
+            self.data = self.data.compute()
+        super(MapProc, self)._unit_computation(*args, **kwargs)
+
     def _write_results_chunk(self):
         pos = self._get_pixels_in_current_batch()
         self.batches_seen.append([int(x) for x in pos])
         self.h5_results[pos, 0] = np.array(self._results)
+
+
+def sentinel(p):
+    """value stored beforehand for an already completed position (must stay untouched)"""
+    return -float(p + 1)
+
+
+def seed_partial_group(main, mask, target=None, name='Mean_Val', parms=None, with_status=True, last_pixel=None):
+    """creates a results group the way a previous (interrupted) run would have left it"""
+    import common
+    with common.quiet():
+        p = MapProc(main, name=name, parms=parms, h5_target_group=target)
+        p._create_results_datasets()
+        p._write_source_dset_provenance()
+    grp = p.h5_results_grp
+    if with_status:
+        grp.create_dataset('completed_positions', data=np.array(mask, dtype=np.uint8))
+    if last_pixel is not None:
+        grp.attrs['last_pixel'] = last_pixel
+    res = grp['Results']
+    for pos, m in enumerate(mask):
+        if m:
+            res[pos, 0] = sentinel(pos)
+    grp.file.flush()
+    return grp
 
 
 def read_log(path, M):
